@@ -69,6 +69,13 @@ pub assume_specification[<Environment as Clone>::clone](t: &Environment) -> (r: 
 #[verifier::external_body] pub fn verif_opaque_string() -> String { unimplemented!() }
 #[verifier::external_body] pub fn verif_havoc<T>() -> T { unimplemented!() }
 
+// ---- /repo functions with ASSUMED contracts in this unit (bodies pinned) --------------------------------------------------------
+//@@ ASSUME src/check/constrain/constraint/builder.rs | impl ConstrBuilder | add
+//@@ ASSUME src/check/constrain/constraint/builder.rs | impl ConstrBuilder | add_constr_map
+//@@ ASSUME src/check/constrain/constraint/builder.rs | impl ConstrBuilder | temp_name
+//@@ ASSUME src/check/constrain/constraint/builder.rs | impl ConstrBuilder | insert_var
+//@@ ASSUME src/check/ident.rs | impl Identifier | fields
+//@@ ASSUME src/check/name/mod.rs | free | match_name
 // ---- the constraint builder with its ghost log ---------------------------------------------------------------------
 /// the (parent, child) pairs added so far, in order: `parent >= child` must hold for the program to be accepted
 pub uninterp spec fn log(b: ConstrBuilder) -> Seq<(Expected, Expected)>;
